@@ -95,6 +95,16 @@ def job(ctx, i):
     prop = ctx['prop']
     seed = core.run_seed(ctx['seed'], prop, ctx['tier'], i)
     plan = plan_for(prop, seed, i)
+    if plan['cfg'].get('feedback'):
+        st, ext = run_isolated(c07.materialise_feedback, plan,
+                               ctx['timeout'])
+        if st == 'ok':
+            plan = ext
+        elif st == 'timeout':
+            return {'status': 'timeout'}
+        else:
+            return {'status': 'harness_error',
+                    'detail': 'feedback: {} {}'.format(st, ext)}
     faults = plan['cfg']['faults']
     st, res = run_isolated(c07.execute, plan, ctx['timeout'])
     if st == 'timeout':
@@ -104,6 +114,11 @@ def job(ctx, i):
     cfgname = config_for(prop, i)
     probes = dict(res['probes'])
     probes['config_' + cfgname] = 1
+    if plan['cfg'].get('feedback_done'):
+        probes['name_feedback_runs'] = 1
+        if plan['cfg'].get('harvested'):
+            probes['name_feedback_names_harvested'] = \
+                len(plan['cfg']['harvested'])
     out = {'status': 'ok', 'evaluations': 1, 'steps': res['steps'],
            'probes': probes, 'faults': res['faults'],
            'extra': dict(res['counters'],
